@@ -275,6 +275,20 @@ def _tail(body):
     return False
 
 
+def _handle_only(fn, name):
+    """every binding of `name` in fn is `name = <module handle expression>` (and it is not a parameter)"""
+    if any(a.arg == name for a in ast.walk(fn.args) if isinstance(a, ast.arg)):
+        return False
+    n = 0
+    for s in ast.walk(fn):
+        if isinstance(s, ast.Assign) and any(isinstance(t, ast.Name) and t.id == name for t in s.targets):
+            if len(s.targets) != 1 or not _is_handle(s.value):
+                return False
+            n += 1
+    stores = sum(1 for x in ast.walk(fn) if isinstance(x, ast.Name) and x.id == name and not isinstance(x.ctx, ast.Load))
+    return n >= 1 and stores == n
+
+
 def _atomic(e):
     return isinstance(e, ast.Constant) or _dotted(e) is not None
 
@@ -387,6 +401,11 @@ class _Inliner:
                 pre.append(ast.Assign(targets=[ast.Name(id=newp, ctx=ast.Store())], value=copy.deepcopy(a), lineno=0))
         for v in sorted(hstored - set(rename)):
             if v in allparams and v in subst:
+                continue
+            if v in cstored and v not in allparams and _handle_only(h, v) and _handle_only(caller, v):
+                # `xp = backend.get_array_module(..)` / `device = backend.get_device(..)` in both: the same module
+                # handle (arrays derived from the same input live on one device) — keep the name
+                rename[v] = v
                 continue
             rename[v] = fresh(v)
         # a substituted argument must not mention a name the helper body (after renaming) stores
